@@ -4,6 +4,7 @@
   store (`GoalQ`).
 -/
 import GM.Proof.ShiftSimXEnd2
+import GM.Proof.ShiftSimXSafe2
 
 namespace GM.Blocks.Xs
 open GM GM.Text GM.Spec GM.Proof.Reader GM.Blocks GM.Blocks.L
@@ -17,10 +18,8 @@ theorem SLe.mono {st : List LineStat} {s s' : St} (h : SLe st s) (hl : s.r.line 
 
 theorem linesLoop_x (hnl : b.getLast? = some 10)
     (hP : PSim (FQ L rest) b Cov6) (hO : OpenBlocksSim (FQ L rest) b Cov6)
-    (hcl : ∀ bp, Cov6 bp → ∀ node s s' st, HasLine b s → bpContinue bp node s = .ok (st, s') → st.cont = false →
-      HasLine b s')
-    (hcn : ∀ bp, Cov6 bp → ∀ node s s' st, HasLine b s → bpContinue bp node s = .ok (st, s') → st.cont = true →
-      st.hasChildren = false → HasLine b s')
+    (hcl : ∀ bp, Cov6 bp → ∀ node s s' st, HL b s → bpContinue bp node s = .ok (st, s') → st.cont = false →
+      HL b s')
     (hPK : PassKeeps b) (hXE : LinesXEndP b L rest) :
     ∀ (fuelA fuelB : Nat) (sa sb : List LineStat) (sA sB : St),
       TopRel (FQ L rest) b sA sB → AI Cov6 sA → StatsRel (FQ L rest) sa sb → 1 ≤ sA.r.line → AU b sA → SLe sa sA →
@@ -53,8 +52,13 @@ theorem linesLoop_x (hnl : b.getLast? = some 10)
           have hne : x.opened ≠ [] := by
             intro e; rw [e] at hl0; simp at hl0
           have hob : ∀ z ∈ x.opened, Cov6 z.bp := by rw [hx]; exact hc.1
-          have key := lineLoop_p2 hP (FQ_ok L rest) hq hNL hO hcl hcn 0 x.opened ((x.opened.length : Int) - 1) hob
-            x.opened 0 sa sb sA sB (fun _ hz => hz) h hc hl hst hline (by omega)
+          have hleaf := Sh.leaf_of_stable hau.st
+          rw [← hx] at hleaf
+          have hcont : ∀ bp, Cov6 bp → bp.isContainer = true → ∀ node s s' (st : PState),
+              bpContinue bp node s = .ok (st, s') → st.cont = true → st.hasChildren = true :=
+            fun bp hb => Sh.leafCont_notList bp ⟨hb.1, hb.2.1⟩
+          have key := lineLoop_p2 hP (FQ_ok L rest) hq hNL hO hcl 0 x.opened ((x.opened.length : Int) - 1) hob hleaf hcont
+            x.opened 0 sa sb sA sB ⟨[], rfl⟩ h hc hl hst hline (by omega)
           rw [ι_zero] at key
           refine P2.bind (key.withL (R := fun a sA' => AUr b sA' ∧ SLe a.2 sA' ∧ a.1 = .next)
               (fun a sA' e => hPK x.opened sA sA' sa a hau (by rw [hx]) hne hob hl hsle e))
@@ -186,7 +190,7 @@ theorem statsRel_sle {sa sb : List LineStat} {sA : St} (hst : StatsRel (FQ L res
     omega
 
 /-- at the top of the outer loop: both runs have a line (weak relation), or run A is at its end -/
-def TopRelW (F : Frame) (b : Bytes) (sA sB : St) : Prop := (SRw F b sA sB ∧ HasLine b sA) ∨ XEnd F b sA sB
+def TopRelW (F : Frame) (b : Bytes) (sA sB : St) : Prop := (SRw F b sA sB ∧ HL b sA) ∨ XEnd F b sA sB
 
 theorem TopRel.w {F : Frame} {sA sB : St} (h : TopRel F b sA sB) : TopRelW F b sA sB := by
   rcases h with ⟨h1, h2⟩ | h
@@ -196,10 +200,8 @@ theorem TopRel.w {F : Frame} {sA sB : St} (h : TopRel F b sA sB) : TopRelW F b s
 theorem blocksLoop_x (hnl : b.getLast? = some 10) (hL : ∃ body, L = body ++ [10] ∧ ∀ c ∈ body, c ≠ 10)
     (hLb : isBlank L = false)
     (hP : PSim (FQ L rest) b Cov6) (hO : OpenBlocksSim (FQ L rest) b Cov6)
-    (hcl : ∀ bp, Cov6 bp → ∀ node s s' st, HasLine b s → bpContinue bp node s = .ok (st, s') → st.cont = false →
-      HasLine b s')
-    (hcn : ∀ bp, Cov6 bp → ∀ node s s' st, HasLine b s → bpContinue bp node s = .ok (st, s') → st.cont = true →
-      st.hasChildren = false → HasLine b s')
+    (hcl : ∀ bp, Cov6 bp → ∀ node s s' st, HL b s → bpContinue bp node s = .ok (st, s') → st.cont = false →
+      HL b s')
     (hPK : PassKeeps b) (hOK : OpenKeeps b) (hXE : LinesXEndP b L rest) :
     ∀ (fuelA fuelB : Nat) (sa sb : List LineStat) (sA sB : St),
       TopRelW (FQ L rest) b sA sB → AI Cov6 sA → sA.pc.opened = [] → 0 ≤ sA.r.line →
@@ -220,10 +222,12 @@ theorem blocksLoop_x (hnl : b.getLast? = some 10) (hL : ∃ body, L = body ++ [1
       obtain ⟨xb, sB1, hb, kb⟩ := GM.Blocks.bind_ok e2
       rcases htop with ⟨h, hl⟩ | hx
       · -- both runs have a line
-        have hs := (skipBlankLinesR_x L rest (FQ_q L rest) hL hLb hnl h.rd hl).apply ha hb
-        obtain ⟨c0, hri0, _⟩ := hl
+        have hs := (skipBlankLinesR_x L rest (FQ_q L rest) hL hLb hnl h.rd hl.1).apply ha hb
+        have hts1 : TS b sA1 := skip_ts hl.2 ha
+        obtain ⟨c0, hri0, _⟩ := hl.1
         by_cases hok : xa.2.2 = true
-        · obtain ⟨hy, hs1, hl1⟩ := hs.1 hok
+        · obtain ⟨hy, hs1, hl1'⟩ := hs.1 hok
+          have hl1 : HL b sA1 := ⟨hl1', hts1⟩
           have hcont : P2 (fun _ _ sA' sd => GoalQ b L rest sA' sd)
               ((match xa with
                 | (_, lines, ok) => do
@@ -340,7 +344,7 @@ theorem blocksLoop_x (hnl : b.getLast? = some 10) (hL : ∃ body, L = body ++ [1
             have hau5 : AU b sA5 := by
               rw [he5]; exact haur4.adv (limbo_stop' hlim4.2) (fun t r' ht => ht)
             have hsle5 : SLe sa' sA5 := hsle1.mono (by omega)
-            refine P2.bind (linesLoop_x hnl hP hO hcl hcn hPK hXE fuelA fuelB sa' sb' sA5 sB5 h5 hc5 hst' hline5 hau5 hsle5)
+            refine P2.bind (linesLoop_x hnl hP hO hcl hPK hXE fuelA fuelB sa' sb' sA5 sB5 h5 hc5 hst' hline5 hau5 hsle5)
               (fun w z sA6 sB6 ⟨hqf, hqt⟩ => ?_)
             by_cases hret : w.1 = true
             · -- run A is done; run B has arrived on `L`
